@@ -337,6 +337,7 @@ func runCheck(prop, tier string, seed int) int {
 
 	known := loadKnown()
 	knownSeen := map[string]bool{}
+	knownObls := 0
 	discharged := 0
 	var evs []oblEvidence
 	solverMs := int64(0)
@@ -369,6 +370,7 @@ func runCheck(prop, tier string, seed int) int {
 			}
 			rep.known = append(rep.known, line)
 			knownSeen[kf.ID] = true
+			knownObls++
 			continue
 		}
 		path, reproduced := writeReplay(replayDir, prop, o, oblGOOS[o], timeout)
@@ -422,9 +424,9 @@ func runCheck(prop, tier string, seed int) int {
 	}
 	level := "proof"
 	cov := map[string]interface{}{
-		"obligations":              len(all) - len(rep.known),
+		"obligations":              len(all) - knownObls,
 		"discharged":               discharged,
-		"refuted_known_finding_obligations": len(rep.known),
+		"refuted_known_finding_obligations": knownObls,
 		"checker_cmd":              fmt.Sprintf("bin/verif check %s --tier %s", prop, tier),
 		"trusted_base":             trusted,
 		"functions_under_contract": funcNames,
